@@ -239,6 +239,14 @@ func (m *C07Monitor) OnResponse(w *world.World, r *world.Req) {
 		}
 	case t_api.CompleteTask:
 		q := r.Req.CompleteTask
+		// valid in every schedule: finished tasks stay finished, so an acknowledged
+		// completion (200 = already finished, 201 = completed now) implies the task is
+		// finished when the answer is given
+		if st := r.Status(); st == 20000 || st == 20100 {
+			if row := w.Dump().Tasks[q.Id]; row == nil || !finishedTask(row.State) {
+				w.Violate(fmt.Sprintf("C07:completion-acknowledged-but-task-active:%d", st), "completion %s was acknowledged with %d but the task is %v: a stale holder's completion must be rejected", q, st, row)
+			}
+		}
 		if m.Sequential {
 			row := m.pre[r.Id].Tasks[q.Id]
 			want := 0
